@@ -455,7 +455,8 @@ Proof.
     - destruct (pm_noavail_legal probe (pm_free m)); discriminate. }
   destruct (port =? 0).
   - destruct (rget n (pm_res m)) as [rp'|]; [|auto].
-    destruct (probe rp') eqn:EP; [|auto]. inversion H; subst. auto.
+    destruct (zmem rp' (pm_free m) && probe rp') eqn:EP; [|auto].
+    apply andb_prop in EP. destruct EP as [_ EP]. inversion H; subst. auto.
   - destruct (zmem port (pm_free m)).
     + destruct (probe port) eqn:EP; inversion H; subst. auto.
     + destruct (uget port (pm_used m)); discriminate.
@@ -484,7 +485,7 @@ Proof.
     + constructor; try assumption.
       * apply pinv_release; assumption.
       * apply acct_take_release; assumption.
-  - eapply acquire_error_unchanged; [|eassumption]. eapply pinv_no0; eassumption.
+  - eapply acquire_error_unchanged_no0; [|eassumption]. eapply pinv_no0; eassumption.
 Qed.
 
 Lemma xi_acq_udp : forall t u b probe ch n port u' res (lok : bool),
@@ -505,7 +506,7 @@ Proof.
     + constructor; try assumption.
       * apply pinv_release; assumption.
       * apply acct_take_release; assumption.
-  - eapply acquire_error_unchanged; [|eassumption]. eapply pinv_no0; eassumption.
+  - eapply acquire_error_unchanged_no0; [|eassumption]. eapply pinv_no0; eassumption.
 Qed.
 
 Lemma xi_close_tcp : forall t u b p, XI A t u b -> XI A (pm_release t p) u (unbind 0 p b).
@@ -649,9 +650,9 @@ End LevelX.
 
 (* ---------- the statements used by Properties/C09.v ---------- *)
 Lemma xinv_reach : forall maxp ranges ops s,
-  ~ In 0 (pm_allowed ranges) -> y_run maxp ops (srv_new ranges) = Some s -> XInv (pm_allowed ranges) (s_rc s).
+  y_run maxp ops (srv_new ranges) = Some s -> XInv (pm_allowed ranges) (s_rc s).
 Proof.
-  intros maxp ranges ops s N0 H. eapply xinv_yrun; [exact N0| |exact H].
+  intros maxp ranges ops s H. pose proof (allowed_no0 ranges) as N0. eapply xinv_yrun; [exact N0| |exact H].
   apply xinv_new; auto.
 Qed.
 
@@ -659,7 +660,7 @@ Qed.
    each manager's used table is exactly the set of ports bound for its protocol, and therefore the OS
    probe fails on every used port *)
 Theorem layered_accounting : forall maxp ranges ops s,
-  ~ In 0 (pm_allowed ranges) -> y_run maxp ops (srv_new ranges) = Some s ->
+  y_run maxp ops (srv_new ranges) = Some s ->
   let r := s_rc s in
   (forall p, In (0, p) (rc_bound r) \/ In (1, p) (rc_bound r) -> In p (pm_allowed ranges)) /\
   NoDup (rc_bound r) /\
@@ -668,8 +669,8 @@ Theorem layered_accounting : forall maxp ranges ops s,
   (forall p, used_by (rc_tcp r) p -> rc_probe r 0 p = false) /\
   (forall p, used_by (rc_udp r) p -> rc_probe r 1 p = false).
 Proof.
-  intros maxp ranges ops s N0 H r.
-  pose proof (xinv_reach _ _ _ _ N0 H) as [Ht Hu Hn Hat Hau]. fold r in Ht, Hu, Hn, Hat, Hau.
+  intros maxp ranges ops s H r.
+  pose proof (xinv_reach _ _ _ _ H) as [Ht Hu Hn Hat Hau]. fold r in Ht, Hu, Hn, Hat, Hau.
   assert (P : forall pr p, In (pr, p) (rc_bound r) -> rc_probe r pr p = false).
   { intros pr p X. unfold rc_probe, probe_of.
     assert (Z : zmem p (bound_ports pr (rc_bound r) ++ squat_ports pr (rc_squat r)) = true).
@@ -731,16 +732,16 @@ Qed.
 
 (* a Run that fails — refused by the manager, refused by the group, or a failing listen after a
    successful acquisition — leaves the bindings, both used tables and both free sets as they were *)
-Theorem failed_registration_returns_ports : forall A r q r' e,
-  ~ In 0 A -> XInv A r -> px_run r q = Some (r', XErr e) ->
+Theorem failed_registration_returns_ports : forall ranges r q r' e,
+  XInv (pm_allowed ranges) r -> px_run r q = Some (r', XErr e) ->
   rc_bound r' = rc_bound r /\
   (forall p, used_by (rc_tcp r') p <-> used_by (rc_tcp r) p) /\
   (forall p, In p (pm_free (rc_tcp r')) <-> In p (pm_free (rc_tcp r))) /\
   (forall p, used_by (rc_udp r') p <-> used_by (rc_udp r) p) /\
   (forall p, In p (pm_free (rc_udp r')) <-> In p (pm_free (rc_udp r))).
 Proof.
-  intros A r q r' e N0 HI H. pose proof (run_err_bound _ _ _ _ H) as E.
-  split; [assumption|]. eapply same_bound_same_tables; eauto. eapply xinv_run; eauto.
+  intros ranges r q r' e HI H. pose proof (run_err_bound _ _ _ _ H) as E.
+  split; [assumption|]. eapply same_bound_same_tables; eauto. eapply xinv_run; eauto. apply allowed_no0.
 Qed.
 
 (* the port a successful Run reports is a port this server listens on: for plain tcp, udp and the first
@@ -798,3 +799,70 @@ Proof.
     + destruct (release_frees A _ _ Hu U) as [F _]. exact F.
     + rewrite unbind_In. intros [_ X]. congruence.
 Qed.
+
+(* a registration refused because the name exists or the quota is reached runs nothing: managers (incl.
+   every name's remembered port), bindings, groups, proxy objects are untouched — the owner of the name is
+   not disturbed *)
+Theorem refused_duplicate_disturbs_nothing : forall maxp s c q s',
+  (y_register maxp s c q = Some (s', YErrExists) \/ y_register maxp s c q = Some (s', YErrQuota)) ->
+  s_rc s' = s_rc s /\ s_names s' = s_names s.
+Proof.
+  intros maxp s c q s' H. unfold y_register in H.
+  destruct (aget c (s_ctls s)) as [ct|]; [|destruct H; discriminate].
+  destruct ((0 <? maxp) && (maxp <? c_used ct + pweight (xq_kind q))).
+  { destruct H as [H|H]; inversion H; subst; auto. }
+  destruct (sget (xq_name q) (s_names s)).
+  { destruct H as [H|H]; inversion H; subst; auto. }
+  destruct (px_run (s_rc s) q) as [[r' [id real|e0]]|]; destruct H as [H|H]; inversion H.
+Qed.
+
+(* the server-chosen port of a name survives refused duplicates: history form at session level *)
+Theorem duplicate_then_same_port_back : forall maxp s c q s1,
+  y_register maxp s c q = Some (s1, YErrExists) ->
+  forall n, rget n (pm_res (rc_tcp (s_rc s1))) = rget n (pm_res (rc_tcp (s_rc s))) /\
+            rget n (pm_res (rc_udp (s_rc s1))) = rget n (pm_res (rc_udp (s_rc s))).
+Proof.
+  intros maxp s c q s1 H n. destruct (refused_duplicate_disturbs_nothing maxp s c q s1 (or_introl H)) as [E _].
+  rewrite E. auto.
+Qed.
+
+(* distinct public ports a session holds (through plain, udp or grouped proxies) never exceed the weight
+   charged to it: every tcp and udp proxy, grouped or not, weighs one *)
+Fixpoint held_ports (objs : list (Z * pobj)) (l : list (pname * (Z * pkind))) : list Z :=
+  match l with
+  | [] => []
+  | (_, (id, k)) :: t =>
+      match k, aget id objs with
+      | KOther, _ => held_ports objs t
+      | _, Some o => zadd (po_real o) (held_ports objs t)
+      | _, None => held_ports objs t
+      end
+  end.
+
+Lemma zadd_length : forall x l, (length (zadd x l) <= S (length l))%nat.
+Proof. intros. unfold zadd. destruct (zmem x l); simpl; lia. Qed.
+
+Lemma held_le_weight : forall objs l, Z.of_nat (length (held_ports objs l)) <= lw l.
+Proof.
+  induction l as [|[n [id k]] t IH]; [simpl; lia|].
+  change (lw ((n, (id, k)) :: t)) with (pweight k + lw t).
+  cbn [held_ports]. destruct k; cbn [pweight].
+  - destruct (aget id objs) as [o|]; [|lia].
+    pose proof (zadd_length (po_real o) (held_ports objs t)). lia.
+  - destruct (aget id objs) as [o|]; [|lia].
+    pose proof (zadd_length (po_real o) (held_ports objs t)). lia.
+  - lia.
+Qed.
+
+Theorem ports_held_within_quota : forall maxp ranges ops s c ct,
+  0 < maxp -> y_run maxp ops (srv_new ranges) = Some s -> aget c (s_ctls s) = Some ct ->
+  Z.of_nat (length (held_ports (rc_objs (s_rc s)) (c_proxies ct))) <= maxp.
+Proof.
+  intros maxp ranges ops s c ct Hm H Hc.
+  destruct (yi_quota _ _ (yinv_run _ _ _ _ (yinv_new maxp ranges) H) _ _ Hc Hm) as [E L].
+  pose proof (held_le_weight (rc_objs (s_rc s)) (c_proxies ct)). lia.
+Qed.
+
+(* a grouped tcp proxy is charged like any other tcp proxy *)
+Theorem grouped_proxy_weighs_one : forall q, xq_kind q = KTcp -> pweight (xq_kind q) = 1.
+Proof. intros q ->. reflexivity. Qed.
